@@ -36,7 +36,7 @@ META = {
 def gen_fe(rng):
     n = rng.choice([0, 1, 2, 3, 5, 8, 13, 40, 100])
     limit = rng.choice([1, 1, 2, 2, 3, 7, 100])
-    return f"fe\trun\t{n}\t{limit}\t{rng.randint(1, 10**6)}"
+    return f"fore\trun\t{n}\t{limit}\t{rng.randint(1, 10**6)}"
 
 
 def fe_oracle(line, ans):
